@@ -203,7 +203,13 @@ EVAL_LINES = ["error stdout", "error stdin", "error date()", "error //a//", "err
               "error fn(x) x", "1 / 0", "nosuch", "[1, 2][5]", "def f(x) error x; f(7)", "def o = <*_str_ = fn(self) 1 / 0*>; o",
               "return 5", "break", "continue", "NULL", "1 + 1", "'text'", "[1, 'a', NULL]", "<<<1 => 2>>>",
               "require nosuchmodule", "def g() g(); 1", ";", "1;", "do error 'x' finally 2 end", "1" + "0" * 400 + " + 1.0",
-              "date('x')", "int('x')", "'abc'[7]", "s('{nosuch}')", "fn(x) x", "<*a = 1*>", "//a+//", "println(5)"]
+              "date('x')", "int('x')", "'abc'[7]", "s('{nosuch}')", "fn(x) x", "<*a = 1*>", "//a+//", "println(5)",
+              # round 5 (C13): a one-statement line whose evaluation uses up the host's stack with no block on the
+              # way (the definitions on a line of their own: the session keeps them); results and error values
+              # that cannot be rendered
+              "def c13f(n) c13f(n + 1)", "c13f(1)", "def c13a = []; append(c13a, c13a); def c13b = []; append(c13b, c13b); 1",
+              "c13a == c13b", "string(c13a)", "c13a < c13b", "c13a", "error c13a", "error <*_str_ = fn(self) error 'x'*>",
+              "error <*_str_ = fn(self) error self*>", "<*_str_ = sorted*>", "split('abc', '(x)?b')"]
 
 
 def eval_sessions(report):
